@@ -215,11 +215,14 @@ OOB_KINDS = {
     "SINlo": (1, True, "shift-ignored", "inside-by-shift-removed"),
     "SINup": (1, True, "shift-ignored", "inside-by-shift-removed"),
     "SOUTup": (1, False, "shift-ignored", "outside-by-shift-kept"),
+    # inside, 1.5-2.4 voxels below the upper x face: only for boundary_type "center" (a half box must not be applied there);
+    # for "whole" the kind degenerates to a plain inside particle
+    "NUP": (1, True, "inside-removed", "near-upper-face"),
 }
 OOB_ALL = list(OOB_KINDS)
-OOB_MEDIUM = ["IN1", "G1", "F1", "G2", "F2", "G3", "LOx", "LOz", "UPy", "SINlo", "SOUTup"]
+OOB_MEDIUM = ["IN1", "G1", "F1", "G2", "F2", "G3", "LOx", "LOz", "UPy", "SINlo", "SOUTup", "NUP"]
 OOB_REDUCED = ["IN1", "G2", "F1", "LOx", "UPy", "SOUTup"]
-OOB_SINGLE = ["IN1", "LOx", "LOy", "LOz", "UPx", "UPy", "UPz", "SINlo", "SINup", "SOUTup"]
+OOB_SINGLE = ["IN1", "LOx", "LOy", "LOz", "UPx", "UPy", "UPz", "SINlo", "SINup", "SOUTup", "NUP"]
 
 
 def tight_loose(boundary, box):
@@ -239,6 +242,10 @@ def oob_row(kind, j, boundary, box, seed):
         return dim - h + 1.25 + jitter(seed, ("up", kind, j), 0.0, 1.5)
     pos = list(inside)
     if kind in ("IN1",):
+        return row(j, tomo, pos=pos)
+    if kind == "NUP":
+        if boundary == "center":
+            pos[0] = 24.0 - 1.5 - jitter(seed, ("nup", j), 0.0, 0.9)
         return row(j, tomo, pos=pos)
     if kind[0] == "G":      # inside the own (largest) dimension, outside both other tomograms' dimensions on that axis
         pos[LARGE_AXIS[tomo]] = up(36.0)
@@ -332,7 +339,7 @@ def make_oob_execute(seed):
         m = obs.lib("Motl.__init__", cm.Motl, make_frame(rows, gapped_index=(form in ("dataframe", "list-1x3"))))
         arg = dims_argument(form, order)
         kw = {"boundary_type": boundary}
-        if boundary == "whole":
+        if boundary == "whole" or box is not None:
             kw["box_size"] = box
         snap = (_snap(arg),)
         try:
@@ -807,7 +814,8 @@ def families(tier, seed):
     fams = []
 
     # ---- out of bounds ------------------------------------------------------------------------------------------
-    bnds = [("center", None), ("whole", 4), ("whole", 7)] + ([("whole", 10)] if thorough else [])
+    # ("center", 8): a box size handed over together with boundary_type="center" (option interaction) - the box must be ignored
+    bnds = [("center", None), ("whole", 4), ("whole", 7), ("center", 8)] + ([("whole", 10)] if thorough else [])
     oob_cfgs = [(b, s, form, order) for (b, s) in bnds for (form, order) in OOB_FORMS]
     if thorough:
         seqs = seq_space((OOB_ALL, 1, 3), (OOB_MEDIUM, 4, 4))
